@@ -158,6 +158,8 @@ def reexecute(trace, uni):
         op = ev["op"]
         if op == "new":
             remap[ev["inst"]] = t.new(ev["cls"], ev["ps"], unhx(ev["pw"]), unhx(ev["idA"]), unhx(ev["idB"]))
+        elif op in ("start", "finish", "serialize") and ev["inst"] not in remap:
+            continue                                    # the instance does not exist on this tree
         elif op == "start":
             script = b"".join(unhx(e["got"]) for e in ev["ent"])
             t.start(remap[ev["inst"]], script)
@@ -166,8 +168,8 @@ def reexecute(trace, uni):
         elif op == "serialize":
             t.serialize(remap[ev["inst"]])
         elif op == "restore":
-            data = json.dumps(ev["blob"]).encode("ascii")
-            i = t.restore(ev["cls"], ev["ps"], data, ev["blob"])
+            data = unhx(ev["raw"]) if "raw" in ev and len(ev["raw"]) < 400 and "malformed" in ev else json.dumps(ev["blob"]).encode("ascii")
+            i = t.restore_raw(ev["cls"], ev["ps"], data)
             if i is not None:
                 remap[ev["inst"]] = i
         elif op == "consts":
